@@ -71,6 +71,7 @@ type CompSpec struct {
 	Cands      []Cand `json:"cands"`
 	NoSpace    string `json:"nospace,omitempty"`
 	PrefixOnly bool   `json:"prefix_only,omitempty"` // only return candidates having the typed prefix
+	List       bool   `json:"list,omitempty"`        // the completer asks for the candidates to be displayed as a list (Completions.DisplayList)
 }
 
 // Env is the environment of a session.
